@@ -7,6 +7,7 @@ import (
 	"encoding/json"
 	"errors"
 	"fmt"
+	"io"
 	"math/rand"
 	"os"
 	"path/filepath"
@@ -391,7 +392,7 @@ func v2Worker(args []string) int {
 	dir, withDID := args[0], args[1] == "1"
 	start, _ := strconv.Atoi(args[2])
 	logrus.SetLevel(logrus.ErrorLevel)
-	logrus.SetOutput(os.Stderr)
+	logrus.SetOutput(io.Discard) // rejected messages are observed through the hook; the output is kept free for the crash report of the runtime
 	var base baseDAG
 	data, err := os.ReadFile(filepath.Join(dir, "base.json"))
 	if err != nil || json.Unmarshal(data, &base) != nil {
